@@ -100,11 +100,13 @@ def minmax_symbolic(eng, src, key, default, is_min, line):
 
     def keys():
         eng.run.push()
+        eng.generic_scopes.append((list(v2), len(eng.run.scopes)))
         try:
             eng.run.assume(g2)
             eng.assume_domain(e2)
             k2 = _key_of(eng, key, e2, line)
         finally:
+            eng.generic_scopes.pop()
             eng.run.pop()
         k1 = _key_of(eng, key, e1, line)
         return k1, k2
@@ -146,8 +148,8 @@ def next_symbolic(eng, q, has_default, default, line):
     else:
         eng.partial(ne, 'StopIteration', line)
     eng.run.assume(guard)
-    if isinstance(coll, ListV) and len(vars_) == 1:
-        # first matching index
+    if isinstance(coll, (ListV, OrdIter)) and len(vars_) == 1:
+        # first matching index (lists) / first matching position in insertion order (dicts)
         j = z3.Const('j!nx', I)
         eng.run.assume(z3.ForAll([j], z3.Implies(z3.And(0 <= j, j < vars_[0]), z3.Not(z3.substitute(guard, (vars_[0], j))))))
     return elt
@@ -231,18 +233,22 @@ def sorted_symbolic(eng, args, kw, line):
     srow = eng.list_data(src)[1][src.ref]
     i, j = z3.Const('i!so', I), z3.Const('j!so', I)
     inr = lambda x: z3.And(0 <= x, x < n)
-    eng.run.assume(z3.ForAll([i], z3.Implies(inr(i), z3.And(inr(perm[i]), inv[perm[i]] == i, row[i] == srow[perm[i]]))), silent=True)
-    eng.run.assume(z3.ForAll([i], z3.Implies(inr(i), z3.And(inr(inv[i]), perm[inv[i]] == i))), silent=True)
+    eng.run.assume(z3.ForAll([i], z3.Implies(inr(i), z3.And(inr(perm[i]), inv[perm[i]] == i, row[i] == srow[perm[i]])),
+                             patterns=[row[i], perm[i]]), silent=True)
+    eng.run.assume(z3.ForAll([i], z3.Implies(inr(i), z3.And(inr(inv[i]), perm[inv[i]] == i, srow[i] == row[inv[i]])),
+                             patterns=[srow[i], inv[i]]), silent=True)
 
     def keyterms():
         a = eng.wrap(row[i], src.ety)
         b = eng.wrap(row[j], src.ety)
         return _key_of(eng, key, a, line), _key_of(eng, key, b, line)
     eng.run.push()
+    eng.generic_scopes.append(([i, j], len(eng.run.scopes)))
     try:
         eng.run.assume(z3.And(inr(i), inr(j)))
         ki, kj = _sub_generic(eng, keyterms)
     finally:
+        eng.generic_scopes.pop()
         eng.run.pop()
     le = eng.as_bool(eng.order(ast.GtE() if reverse is True else ast.LtE(), ki, kj, line))
     eq = eng.as_bool(eng.eq(ki, kj))
